@@ -40,9 +40,11 @@ def run_layers(ctx, files1, files2, p1pattern):
         # layers in documented order: (id, kind, path)
         layers = [('L0', 'default', None), ('L1', 'main', 'policy.yaml')]
         for fn in sorted(files1):
-            layers.append(('D1_' + fn.split('.')[0], 'dir', 'd1/' + fn))
+            layers.append(('D1_' + fn.rsplit('.', 1)[0].replace(
+                '.', '_').replace('-', '_') + fn[-4], 'dir', 'd1/' + fn))
         for fn in sorted(files2):
-            layers.append(('D2_' + fn.split('.')[0], 'dir', 'd2/' + fn))
+            layers.append(('D2_' + fn.rsplit('.', 1)[0].replace(
+                '.', '_').replace('-', '_') + fn[-4], 'dir', 'd2/' + fn))
         defined = {}
         for lid, kind, path in layers:
             defined[lid] = bool(ctx.bool('p0_in_' + lid))
@@ -134,7 +136,9 @@ def run_layers(ctx, files1, files2, p1pattern):
 def cubes_layers(tier, seed):
     out = []
     if tier == 'quick':
-        combos = [(['10.yaml', '9.yaml'], ['B.yaml']),
+        combos = [(['base.yaml', 'base-overrides.yaml'], ['policy.yaml',
+                                                            'policy.l.yaml']),
+                  (['10.yaml', '9.yaml'], ['B.yaml']),
                   (['a.yaml', 'B.yaml'], ['9.yaml', '10.yaml']),
                   (['9.yaml'], ['a.yaml', '10.yaml'])]
         pats = ['none', 'main+first', 'last']
@@ -144,7 +148,10 @@ def cubes_layers(tier, seed):
         for a in itertools.combinations(FILE_MENU, 2):
             for b in itertools.combinations(FILE_MENU, 2):
                 combos.append((list(a), list(b)))
-        combos += [(FILE_MENU[:3], FILE_MENU[1:]), (FILE_MENU, ['9.yaml'])]
+        combos += [(FILE_MENU[:3], FILE_MENU[1:]), (FILE_MENU, ['9.yaml']),
+                   (['base.yaml', 'base-overrides.yaml'],
+                    ['policy.yaml', 'policy.l.yaml']),
+                   (['x.json', 'x.yaml', 'x-1.yaml'], ['a.b.yaml', 'a.yaml'])]
         pats = ['none', 'default', 'main+first', 'last']
     for f1, f2 in combos:
         for p in pats:
